@@ -17,7 +17,10 @@ LEVEL = "exploration"
 RULE = ("operation sequences over a pool of 3 names and an alphabet of 42 operations "
         "(add, update, update+rename, replace with the content of another filter with/without "
         "rename, remove, enable, disable, move up/down): ALL sequences up to length 3 (quick) "
-        "/ 4 (thorough) from the empty set, plus random sequences up to length 25. "
+        "/ 4 (thorough) from the empty set; the bytes-name twins of those operations (every "
+        "name handed over as UTF-8 bytes): ALL sequences up to length 2 over both alphabets "
+        "and all of length 3 (4) whose last operation is a twin; plus random sequences up to "
+        "length 25 mixing both. "
         "Non-trivial = sequence in which at least one operation changed the set; distinct = "
         "distinct operation sequences.")
 ASSUMPTIONS = [
@@ -27,9 +30,9 @@ ASSUMPTIONS = [
 ]
 EXHAUSTIVE = {"quick": True, "thorough": True}
 FLOORS = {
-    "quick": {"sequences": 70000, "monitor:invariant.names_unique": 200000,
+    "quick": {"sequences": 70000, "sequences-with-bytes-names": 70000, "monitor:invariant.names_unique": 200000,
               "lockstep-steps": 150000},
-    "thorough": {"sequences": 3000000, "monitor:invariant.names_unique": 9000000,
+    "thorough": {"sequences": 3000000, "sequences-with-bytes-names": 3000000, "monitor:invariant.names_unique": 9000000,
                  "lockstep-steps": 7000000},
 }
 SHARD_TIMEOUT = {"quick": 600, "thorough": 3000}
@@ -67,6 +70,8 @@ def alphabet():
 
 
 ALPHA = alphabet()
+# the same operations with every name handed over as UTF-8 bytes (the API takes both)
+ALPHA_B = [fl.bytes_twin(op) for op in ALPHA]
 
 
 def plan(tier, seed):
@@ -77,6 +82,14 @@ def plan(tier, seed):
         k = 1 if length < 3 else (16 if length == 3 else 96)
         for s, e in split(n, k):
             shards.append({"w": "enum", "len": length, "range": [s, e]})
+    # bytes-name twins: everything of length <= 2 over both alphabets; length 3 (4) with a
+    # str-name prefix and a bytes-name last operation
+    for length in (1, 2):
+        shards.append({"w": "enum-b", "len": length, "range": [0, (2 * len(ALPHA)) ** length]})
+    for length in range(3, L + 1):
+        n = len(ALPHA) ** length
+        for s, e in split(n, 16 if length == 3 else 96):
+            shards.append({"w": "enum-b", "len": length, "range": [s, e]})
     nr = 3000 if tier == "quick" else 100000
     for i, (s, e) in enumerate(split(nr, 8 if tier == "quick" else 32)):
         shards.append({"w": "random", "n": e - s, "rs": seed * 1000003 + i})
@@ -307,10 +320,30 @@ def run_shard(tier, shard, res: Result):
             res.case(repr(ops), nontrivial=ch)
             if idx % 20011 == 0:
                 res.sample({"workload": "enum", "sequence": [list(o) for o in ops]}, 2)
+    elif shard["w"] == "enum-b":
+        both = ALPHA + ALPHA_B
+        s, e = shard["range"]
+        for idx in range(s, e):
+            x = idx
+            ops = []
+            if shard["len"] <= 2:
+                for _ in range(shard["len"]):
+                    ops.append(both[x % len(both)])
+                    x //= len(both)
+            else:
+                for j in range(shard["len"]):
+                    ops.append((ALPHA_B if j == 0 else ALPHA)[x % len(ALPHA)])
+                    x //= len(ALPHA)
+                ops.reverse()
+            ch = run_sequence(ops, res)
+            res.count("sequences")
+            res.count("sequences-with-bytes-names")
+            res.case(repr(ops), nontrivial=ch)
     else:
         rng = random.Random(shard["rs"])
         for i in range(shard["n"]):
-            ops = [rng.choice(ALPHA) for _ in range(rng.randint(5, 25))]
+            ops = [rng.choice(ALPHA) if rng.random() < 0.8 else rng.choice(ALPHA_B)
+                   for _ in range(rng.randint(5, 25))]
             ch = run_sequence(ops, res)
             res.count("sequences")
             res.count("random-sequences")
@@ -324,5 +357,6 @@ def run_shard(tier, shard, res: Result):
 
 def replay(witness, res: Result):
     install()
-    ops = [tuple(o) for o in witness["sequence"]]
+    from ..core import unjson_bytes
+    ops = [tuple(unjson_bytes(x) for x in o) for o in witness["sequence"]]
     run_sequence(ops, res)
